@@ -376,7 +376,7 @@ def match_known(known, t, v):
 
 def run(prop, tier):
     rng = random.Random(seed() * 7 + int(prop[1:]))
-    rep = Report(prop, tier, "model_checking" if prop != "C03" else "exploration")
+    rep = Report(prop, tier, {"C03": "exploration", "C07": "fault_enumeration"}.get(prop, "model_checking"))
     mc(prop, tier, rep)
     traces = GEN[prop](tier, rng)
     verdicts, st = validate_traces("FramingTrace", "FramingTrace.cfg", traces, timeout=3000)
